@@ -334,6 +334,36 @@ def h4_faults(timeout=300, part=None, exclude=(), **kw):
                          timeout, concretize=conc, part=part)
 
 
+def h4_faults2(timeout=1800, part=None, **kw):
+    """two simultaneous faults at different sites of the seed document (thorough tier)"""
+    base = seed_objects()
+    S = sites(base)
+
+    def fn(ex):
+        s1 = ex.choice(len(S), "site1")
+        s2 = ex.choice(len(S), "site2")
+        if s2 <= s1:
+            raise symx.Abort()
+        r1 = ex.choice(len(REPLACEMENTS), "kind1")
+        r2 = ex.choice(len(REPLACEMENTS), "kind2")
+        objs = seed_objects()
+        try:
+            apply_fault(objs, S[s1], REPLACEMENTS[r1])
+            apply_fault(objs, S[s2], REPLACEMENTS[r2])
+            data = pdfgen.build(objs)
+        except Exception:
+            raise symx.Abort()
+        r = run_extract(data)
+        ex.require(r is None, "object %d /%s replaced by %s and object %d /%s replaced by %s: %s" % (S[s1][0], S[s1][1], REPLACEMENTS[r1], S[s2][0], S[s2][1], REPLACEMENTS[r2], r),
+                   sites=[list(S[s1]), list(S[s2])], kinds=[REPLACEMENTS[r1], REPLACEMENTS[r2]])
+
+    def conc(m, info):
+        return {"what": "fault2", "sites": info["sites"], "kinds": info["kinds"]}
+    from pdfminer import high_level
+    return core.run_symx("H4_faults", fn, [high_level.extract_text], {"seed": "8-object document", "faults": "every pair of single faults at two different sites (%d sites x %d kinds each)" % (len(S), len(REPLACEMENTS))},
+                         timeout, concretize=conc, part=part)
+
+
 def h4_truncate(timeout=300, part=None, **kw):
     data = pdfgen.build(seed_objects())
 
@@ -503,6 +533,12 @@ def replay(harness, inp):
             attrs["DecodeParms"] = parms
         r = run_extract(_doc_with_stream(attrs, inp["data"]))
         return None if r is None else "content stream with /%s (DecodeParms %r) payload %r: %s" % (inp["filt"], parms, inp["data"], r)
+    if what == "fault2":
+        objs = seed_objects()
+        for st, kd in zip(inp["sites"], inp["kinds"]):
+            apply_fault(objs, tuple(st), kd)
+        r = run_extract(pdfgen.build(objs))
+        return None if r is None else "seed document with faults %r at %r: %s" % (inp["kinds"], inp["sites"], r)
     if what == "fault":
         objs = seed_objects()
         apply_fault(objs, tuple(inp["site"]), inp["kind"])
@@ -542,4 +578,7 @@ def jobs(tier):
         J.append(Job("H4_truncate:%d" % k, "h4_truncate", {"part": [k, 2, 5]}, 300, "H4_faults"))
     for k in range(2):
         J.append(Job("H4_objstm:%d" % k, "h4_objstm", {"part": [k, 2, 5]}, 300, "H4_faults"))
+    if tier != "quick":
+        for k in range(16):
+            J.append(Job("H4_faults2:%d" % k, "h4_faults2", {"part": [k, 16, 10]}, 1800, "H4_faults"))
     return J
